@@ -389,7 +389,7 @@ def run_many_on_library_scheduler(chk, rng, n):
     for i in range(n):
         npeers = rng.randint(2, 8)
         dests = list(range(10, 10 + npeers))
-        retries, tapdu = rng.choice([(1, 3000), (3, 3000), (2, 2000)])
+        retries, tapdu = rng.choice([(1, 3000), (3, 3000), (2, 2000), (0, 3000)])
         answer = {d: rng.random() < 0.5 for d in dests}
         rig = Rig(dests, retries=retries, tapdu=tapdu)
         done = {}
